@@ -127,6 +127,10 @@ func genSourceText(t *rapid.T) srcCase {
 		if gen.Pct(t, 50, "splitdots") {
 			texts = splitDotted(texts)
 		}
+		if gen.Pct(t, 35, "splitstrings") {
+			// string values as two or three adjacent literals, with trivia between the parts
+			texts = gen.SplitStrings(t, texts, 70)
+		}
 		text := gen.Respell(t, texts, st)
 		if gen.Pct(t, 10, "bom") {
 			text = "\xef\xbb\xbf" + text
